@@ -639,6 +639,72 @@ func phiFact(phi *ssa.Phi, truth, polarity bool, pred func(ssa.Value) bool, dept
 	return n > 0
 }
 
+// classifierForced: the If tests the result t of a pure classifier K against a
+// constant, and the tests of the same t that dominate it leave only one outcome:
+// t is already known, or every other value K can return has been excluded
+// (`switch kind(r) { case a: ... case b: ... case c: ... }` with K's range {a,b,c}:
+// the edge "none of them" is infeasible). Installed as an.ForcedBranch.
+func classifierForced(iff *ssa.If) (int, bool) {
+	if v, ok := forcedMemo[iff]; ok {
+		return v.k, v.ok
+	}
+	k, ok := classifierForced0(iff)
+	forcedMemo[iff] = struct {
+		k  int
+		ok bool
+	}{k, ok}
+	return k, ok
+}
+
+var forcedMemo = map[*ssa.If]struct {
+	k  int
+	ok bool
+}{}
+
+func classifierForced0(iff *ssa.If) (int, bool) {
+	cond, neg := an.Not(iff.Cond)
+	call, k, neq, ok := classifierCallLoose(cond)
+	if !ok {
+		return 0, false
+	}
+	K := an.StaticCallee(call.Common())
+	rng := map[int64]bool{}
+	for _, ret := range an.Returns(K) {
+		v, _ := an.IntConst(an.ReturnResults(ret)[0])
+		rng[v] = true
+	}
+	known, has := int64(0), false
+	for _, f := range an.BranchFacts(iff.Block()) {
+		c2, n2 := an.Not(f.Cond)
+		call2, k2, neq2, ok2 := classifierCallLoose(c2)
+		if !ok2 || call2 != call {
+			continue
+		}
+		eq := ((f.True != n2) != neq2) // t == k2 holds on this path
+		if eq {
+			known, has = k2, true
+		} else {
+			delete(rng, k2)
+		}
+	}
+	var eqHolds bool
+	switch {
+	case has:
+		eqHolds = known == k
+	case !rng[k]:
+		eqHolds = false
+	case len(rng) == 1:
+		eqHolds = true
+	default:
+		return 0, false
+	}
+	condVal := eqHolds != neq // value of the comparison as written
+	if condVal != neg {       // value of the If's condition
+		return 0, true
+	}
+	return 1, true
+}
+
 // classifierCallLoose is classifierCall for classifiers of values other than
 // requests (errors): K may call functions outside the module (errors.Is,
 // strings.Contains, err.Error(), net.Error.Temporary()) but stores nothing
